@@ -379,9 +379,9 @@ func Run[C any](t *testing.T, spec Spec[C]) {
 				if f != nil {
 					rr.Failed = true
 					rr.Failure = f
-					t.Logf("replay %s FAILED: %s: %s", file, f.Signature, f.Message)
+					fmt.Printf("replay %s FAILED: %s: %s\n", file, f.Signature, f.Message)
 				} else {
-					t.Logf("replay %s passed", file)
+					fmt.Printf("replay %s passed\n", file)
 				}
 			}
 			col.res.Replays = append(col.res.Replays, rr)
